@@ -27,7 +27,7 @@ ASSUMPTIONS = [
 
 @st.composite
 def ortho_case(draw):
-    a = draw(gen.tt_spec(min_order=1, max_order=5, max_dim=3, max_rank=4))
+    a = draw(gen.tt_spec(min_order=1, max_order=5, max_dim=3, max_rank=4, int_dtype=True))
     d = len(a['rows'])
     if d > 1 and draw(st.booleans()):
         # widen one bond well beyond what the neighbouring cores can support
